@@ -12,7 +12,8 @@ use serde_json::{json, Value};
 
 use crate::rng::{hash_str, mix, Rng};
 
-pub const VERIF_DIR: &str = "/verif";
+/// Root of the verification tree: `VERIF_DIR` (set by `./check` to its own directory), else `/verif`.
+pub fn verif_dir() -> String { std::env::var("VERIF_DIR").ok().filter(|s| !s.is_empty()).unwrap_or_else(|| "/verif".to_string()) }
 
 // ---------------------------------------------------------------------------------------------------------------------
 // Panic capture
@@ -168,7 +169,7 @@ pub struct KnownFinding {
 }
 
 pub fn load_known_findings() -> Vec<KnownFinding> {
-  let path = format!("{VERIF_DIR}/KNOWN_FINDINGS.txt");
+  let path = format!("{}/KNOWN_FINDINGS.txt", verif_dir());
   let Ok(text) = std::fs::read_to_string(&path) else { return vec![]; };
   let mut out = vec![];
   for line in text.lines() {
@@ -263,7 +264,7 @@ pub fn run_check<E: Engine>(engine: &E, spec: &CheckSpec, tier: &str) -> i32 {
   // 1. Known findings: replay the committed scenarios.
   let mut known_reproduced = 0u64;
   for k in known.iter() {
-    let path = format!("{VERIF_DIR}/{}", k.replay);
+    let path = format!("{}/{}", verif_dir(), k.replay);
     match std::fs::read_to_string(&path).ok().and_then(|t| serde_json::from_str::<ReplayFile<E::Scn>>(&t).ok()) {
       Some(rf) => {
         let out = run_safely(engine, &rf.scenario, prop);
@@ -284,7 +285,7 @@ pub fn run_check<E: Engine>(engine: &E, spec: &CheckSpec, tier: &str) -> i32 {
   // 1b. Regression replays of fixed defects: must pass.
   let mut regression_failed: Option<(String, Violation)> = None;
   let mut regressions = 0u64;
-  let reg_dir = format!("{VERIF_DIR}/regressions");
+  let reg_dir = format!("{}/regressions", verif_dir());
   if let Ok(rd) = std::fs::read_dir(&reg_dir) {
     let mut files: Vec<_> = rd.filter_map(|e| e.ok()).map(|e| e.path()).filter(|p| p.extension().map(|e| e == "json").unwrap_or(false)).collect();
     files.sort();
@@ -407,7 +408,7 @@ pub fn run_check<E: Engine>(engine: &E, spec: &CheckSpec, tier: &str) -> i32 {
       let (min_scn, tried) = minimise(engine, scn, prop, &v.oracle, &v.sig, 3000);
       let min_out = run_safely(engine, &min_scn, prop);
       let min_v = min_out.violations.iter().find(|x| x.concerns(prop) && x.oracle == v.oracle && x.sig == v.sig).cloned().unwrap_or_else(|| v.clone());
-      let dir = format!("{VERIF_DIR}/replays");
+      let dir = format!("{}/replays", verif_dir());
       let _ = std::fs::create_dir_all(&dir);
       let path = format!("{dir}/{prop}-{master}-{config}-{index}.json");
       let rf = ReplayFile { engine: engine.name().to_string(), property: prop.to_string(), oracle: v.oracle.clone(), config: config.clone(), master_seed: master, run_index: *index, run_seed: *run_seed, violation: min_v.clone(), minimised: true, scenario: min_scn };
@@ -464,7 +465,7 @@ pub fn run_check<E: Engine>(engine: &E, spec: &CheckSpec, tier: &str) -> i32 {
     "wall_s": wall,
     "violations": violations,
   });
-  let edir = format!("{VERIF_DIR}/evidence");
+  let edir = format!("{}/evidence", verif_dir());
   let _ = std::fs::create_dir_all(&edir);
   if exit != 2 {
     std::fs::write(format!("{edir}/{prop}.json"), serde_json::to_string_pretty(&evidence).unwrap()).expect("cannot write evidence");
@@ -482,7 +483,7 @@ pub fn replay<E: Engine>(engine: &E, text: &str, path: &str) -> i32 {
   };
   let out = run_safely(engine, &rf.scenario, &rf.property);
   if let Some(e) = out.harness_error { println!("HARNESS-ERROR replay {path}: {e}"); return 2; }
-  match out.violations.iter().find(|v| v.concerns(&rf.property) && v.oracle == rf.oracle) {
+  match out.violations.iter().find(|v| v.concerns(&rf.property) && v.oracle == rf.oracle && v.sig == rf.violation.sig) {
     Some(v) => {
       println!("replayed: oracle={} step={} {}", v.oracle, v.step, v.msg);
       if v.step != rf.violation.step { println!("NOTE: step differs from the recorded one ({} vs {})", v.step, rf.violation.step); }
@@ -490,7 +491,7 @@ pub fn replay<E: Engine>(engine: &E, text: &str, path: &str) -> i32 {
       1
     }
     None => {
-      println!("replay of {path}: recorded oracle {} did not fire (other oracles fired: {:?})", rf.oracle, out.violations.iter().map(|v| v.oracle.clone()).collect::<Vec<_>>());
+      println!("replay of {path}: recorded oracle {} (signature {:?}) did not fire (oracles that fired, with signature: {:?})", rf.oracle, rf.violation.sig, out.violations.iter().map(|v| (v.oracle.clone(), v.sig.clone())).collect::<Vec<_>>());
       2
     }
   }
